@@ -215,6 +215,9 @@ def record_violations(ck: core.Check, viols: List[Dict[str, Any]], traces: List[
             detail = "rc=%s stderr=%r | case=%s" % (tr["obs"]["rc"], me.get("stderr", "")[:160], json.dumps(short_desc(desc), sort_keys=True)[:200])
         obs = {"obs": {k: x for k, x in tr["obs"].items() if k not in ("lines", "recGot", "recWant")}, "events": [(e["e"], e["p"], e["x"], e["ids"]) for e in tr["events"]][-12:], "stderr": me.get("stderr", "")[:2000], "exc": me.get("exc")}
         ck.violation(key, clause, {"runner_case": {k: x for k, x in case.items()}, "l": v["l"]}, obs, detail=detail)
+    dump = os.environ.get("VERIF_PIPE_DUMP")  # development aid: all violations of the run, verbatim
+    if dump:
+        pathlib.Path(dump).write_text(json.dumps(ck.violations, indent=1, default=str))
     # summary of the distinct keys of this run (evidence notes)
     seen: Dict[str, int] = {}
     for x in ck.violations:
